@@ -38,7 +38,9 @@ FORBIDDEN_TYPE_NAMES = {
 # class is exported); a few (directory, name) pairs would put a module next to a package of the same name
 COLLISION_NAMES = ["Data", "Encrypt", "Protocol", "Net", "Map", "Pub", "Client", "Server", "Interleave", "Deinterleave",
                    "FlipMsb", "SwapMultiples", "EncodeNumber", "DecodeNumber", "EncodeString", "DecodeString",
-                   "ServerVerificationHash", "EoNumericLimits", "NumberEncodingUtils", "EncryptionUtils"]
+                   "ServerVerificationHash", "EoNumericLimits", "NumberEncodingUtils", "EncryptionUtils",
+                   # names of helpers that leak into the eolib namespace through the static star-imports
+                   "ABC", "EnumMeta", "Random"]
 FILESYSTEM_COLLISIONS = {"": {"map", "net", "pub"}, "net": {"client", "server"}, "pub": {"server"}}
 FAMILIES = ["Connection", "Account", "Character", "Login", "Welcome", "Walk", "Face", "Chair", "Emote", "Attack",
             "Spell", "Shop", "Item", "StatSkill", "Global", "Talk", "Warp", "Jukebox", "Players", "Avatar", "Party",
@@ -217,6 +219,21 @@ class SpecGen:
         self._wb = wb
         n = rng.choice([0, 1, 1, 2, 3, 4, 6]) if depth > 0 else rng.choice([1, 2, 3, 4, 6, 8])
         n = min(n, budget)
+        indent = "    " * (2 + depth)
+        if depth == 0 and rng.random() < 0.06:
+            # a class without constructor arguments: nothing but unnamed constants and/or a dummy
+            for _ in range(rng.choice([0, 1, 2])):
+                t = rng.choice(["byte", "char", "short"])
+                lines.append(f'{indent}<field type="{t}">{rng.randrange(0, 253)}</field>')
+                info["min_size"] += SIZE[t]
+            if not lines or rng.random() < 0.5:
+                lines.append(f'{indent}<dummy type="byte">{rng.randrange(1, 253)}</dummy>')
+            info["first_consumes"] = True
+            info["first_plain"] = not chunked
+            info["fixed"] = None
+            info["ended"] = True
+            info["reached_optional"] = False
+            return lines, info
         reached_optional = False
         ended = False          # dummy emitted / unbounded trailing item: nothing may follow
         switchable = []        # (field name, kind, enum TypeInfo|None) not yet switched on
